@@ -49,6 +49,17 @@ func load() {
 	}
 }
 
+// SetWitness installs a witness (JSON) and resets the replay state.
+func SetWitness(data []byte) error {
+	w = witness{}
+	if err := json.Unmarshal(data, &w); err != nil {
+		return err
+	}
+	loaded = true
+	Reset()
+	return nil
+}
+
 // Reset clears the replay state (between two native runs in one process).
 func Reset() {
 	seq = map[string]int{}
